@@ -341,6 +341,161 @@ func c23RunSearch(c *Ctx, cs c23Case, style int) (fail bool, what string) {
 }
 
 
+// ---- read into PRE-EXISTING targets (bash leg only; the Lean model is about values, not attributes) ----
+
+// c23Pre: the target of the read (arr for -a, a for names, REPLY for bare read) exists in some state
+// before the read; afterwards attributes (${v@a}), indices (${!v[*]}) and every element are compared with bash.
+// witness `pre <state> <mode> <raw> <input-hex>`.
+type c23Pre struct {
+	state int
+	mode  string // "a", "bare", "1".."3"
+	raw   bool
+	input string
+}
+
+var c23PreStates = []string{
+	0:  "unset",
+	1:  "scalar",
+	2:  "exported",
+	3:  "dense-array",
+	4:  "sparse-array",
+	5:  "array-with-hole",
+	6:  "assoc-array",
+	7:  "readonly",
+	8:  "nameref-to-unset",
+	9:  "nameref-to-scalar",
+	10: "nameref-to-sparse-array",
+	11: "local-scalar",
+	12: "local-sparse-array",
+}
+
+func (p c23Pre) target() string {
+	switch p.mode {
+	case "a":
+		return "arr"
+	case "bare":
+		return "REPLY"
+	}
+	return "a"
+}
+
+func c23PreWitness(p c23Pre) string {
+	return fmt.Sprintf("pre %d %s %s %s", p.state, p.mode, b01(p.raw), hx(p.input))
+}
+
+func c23PreScript(p c23Pre) string {
+	T := p.target()
+	var setup, local string
+	switch p.state {
+	case 0:
+		setup = "unset " + T
+	case 1:
+		setup = T + "=old"
+	case 2:
+		setup = "export " + T + "=old"
+	case 3:
+		setup = T + "=(1 2 3 4)"
+	case 4:
+		setup = T + "=([3]=p [7]=q)"
+	case 5:
+		setup = T + "=(1 2 3); unset '" + T + "[1]'"
+	case 6:
+		setup = "declare -A " + T + "=([k]=v)"
+	case 7:
+		setup = "readonly " + T + "=old"
+	case 8:
+		setup = "unset tgt; declare -n " + T + "=tgt"
+	case 9:
+		setup = "tgt=old; declare -n " + T + "=tgt"
+	case 10:
+		setup = "tgt=([2]=p [5]=q); declare -n " + T + "=tgt"
+	case 11:
+		setup = T + "=glob"
+		local = "local " + T + "=old"
+	case 12:
+		setup = T + "=glob"
+		local = "local " + T + "=([2]=p [5]=q)"
+	}
+	cmd := "read"
+	if p.raw {
+		cmd += " -r"
+	}
+	names := []string{T}
+	switch p.mode {
+	case "a":
+		cmd += " -a arr"
+	case "bare":
+	default:
+		k, _ := strconv.Atoi(p.mode)
+		names = c23Names(k)
+		cmd += " " + strings.Join(names, " ")
+	}
+	var sb strings.Builder
+	// o NAME: attributes, then indices and elements of an array, or set-ness and value of a scalar
+	// (`${!v[*]}` of a scalar is "0" in bash and empty in interp — not this property's business)
+	sb.WriteString(`o() { eval "case \"\${$1@a}\" in *[aA]*) printf '%s:attr=%s;idx=%s;' \"$1\" \"\${$1@a}\" \"\${!$1[*]}\"; for i in \"\${!$1[@]}\"; do printf '[%s]=%s;' \"\$i\" \"\${$1[\$i]}\"; done;; *) printf '%s:attr=%s;%s=%s;' \"$1\" \"\${$1@a}\" \"\${$1+set}\" \"\${$1}\";; esac"; echo; }` + "\n")
+	sb.WriteString("unset IFS\n")
+	sb.WriteString("f() {\n")
+	if local != "" {
+		sb.WriteString(local + "\n")
+	}
+	sb.WriteString(cmd + ` <<< "$1"; echo "st=$?"` + "\n")
+	for _, n := range names {
+		sb.WriteString("o " + n + "\n")
+	}
+	sb.WriteString("}\n")
+	sb.WriteString(setup + "\n")
+	sb.WriteString(`f "$1"` + "\n")
+	sb.WriteString("o " + T + "\n")
+	if p.state >= 8 && p.state <= 10 {
+		sb.WriteString("o tgt\ndeclare -p " + T + " 2>&1\n")
+	}
+	return sb.String()
+}
+
+// c23PreExcluded: target states in which the unchanged tree is known to differ from bash (findings
+// C23-read-drops-export, C23-read-a-assoc, C23-read-readonly-status, C23-read-nameref,
+// C23-read-name-into-array); their witnesses are replayed from corpus/C23-known.txt.
+func c23PreExcluded(p c23Pre) (bool, string) {
+	switch p.state {
+	case 2:
+		return true, "export"
+	case 6:
+		return true, "assoc"
+	case 7:
+		return true, "readonly"
+	case 8, 9, 10:
+		return true, "nameref"
+	case 3, 4, 5, 12:
+		if p.mode != "a" {
+			return true, "name-into-array"
+		}
+	}
+	return false, ""
+}
+
+func c23PreSearch(c *Ctx, p c23Pre) (bool, string) {
+	script := c23PreScript(p)
+	bs, ok := c23Bash(c, script, p.input)
+	if !ok {
+		return false, "oracle-unavailable"
+	}
+	in := runInterp(c, syntax.LangBash, script, p.input)
+	if in.TimedOut {
+		in = runInterp(c, syntax.LangBash, script, p.input)
+		if in.TimedOut {
+			return false, "interp-timeout"
+		}
+	}
+	if in.Panic != "" {
+		return true, fmt.Sprintf("target %s, read mode %s, input %q: interp panicked: %s", c23PreStates[p.state], p.mode, p.input, in.Panic)
+	}
+	if in.Stdout != bs.Stdout {
+		return true, fmt.Sprintf("target %s, read mode %s, input %q: interp prints %q, bash prints %q", c23PreStates[p.state], p.mode, p.input, in.Stdout, bs.Stdout)
+	}
+	return false, ""
+}
+
 // c23Bash runs the bash oracle; a run that could not be trusted (exec error, timeout, non-zero
 // status with nothing printed — seen under heavy machine load) is retried, then reported as
 // unavailable so that the case is skipped rather than blamed on the implementation.
@@ -606,6 +761,7 @@ func c23(c *Ctx) {
 		known   bool
 	}
 	var shCases []shCase
+	var preCases []c23Pre
 
 	// ---- corpus: replayed first ----
 	for _, l := range c.CorpusLines() {
@@ -618,6 +774,11 @@ func c23(c *Ctx) {
 		case len(f) == 5 && f[0] == "read":
 			set, ifs := c23ParseIfsTok(f[1])
 			c23BuiltinCase(c, c23Case{set, ifs, f[2] == "1", f[3], unhx(f[4])}, true)
+		case len(f) == 5 && f[0] == "pre":
+			st, _ := strconv.Atoi(f[1])
+			if st >= 0 && st < len(c23PreStates) {
+				preCases = append(preCases, c23Pre{st, f[2], f[3] == "1", unhx(f[4])})
+			}
 		case len(f) == 6 && f[0] == "sh":
 			set, ifs := c23ParseIfsTok(f[2])
 			st, _ := strconv.Atoi(f[1])
@@ -740,6 +901,50 @@ func c23(c *Ctx) {
 		c.Case("sh\x00"+sc.witness, true, "bash-compared", fmt.Sprintf("style=%d", sc.style))
 		if results[i].fail {
 			c.Fail(sc.witness, results[i].what)
+		}
+	}
+	// ---- read into pre-existing targets ----
+	npre := 60
+	if c.Thorough() {
+		npre = 2000 / max(1, c.Shards)
+	}
+	if c.N == 0 {
+		npre = 0
+	}
+	rp := c.R.Fork("pre")
+	for i := 0; i < npre; i++ {
+		var p c23Pre
+		for {
+			p = c23Pre{state: rp.Intn(len(c23PreStates)), mode: rp.Pick([]string{"a", "a", "a", "bare", "1", "2", "3"}), raw: rp.Chance(30)}
+			if ex, _ := c23PreExcluded(p); !ex {
+				break
+			}
+		}
+		nf := rp.Intn(6)
+		var fs []string
+		for j := 0; j < nf; j++ {
+			fs = append(fs, rp.Pick([]string{"x", "yy", "z1", "w", "é"}))
+		}
+		p.input = strings.Join(fs, rp.Pick([]string{" ", "  ", "\t"}))
+		if rp.Chance(20) {
+			p.input = " " + p.input + " "
+		}
+		preCases = append(preCases, p)
+	}
+	preRes := parallelMap(len(preCases), 8, func(i int) shRes {
+		f, w := c23PreSearch(c, preCases[i])
+		return shRes{f, w}
+	})
+	for i, p := range preCases {
+		w := c23PreWitness(p)
+		if preRes[i].what == "oracle-unavailable" || preRes[i].what == "interp-timeout" {
+			c.Case("pre\x00"+w, false, preRes[i].what)
+			continue
+		}
+		nb++
+		c.Case("pre\x00"+w, true, "bash-compared", "pre="+c23PreStates[p.state], "premode="+p.mode)
+		if preRes[i].fail {
+			c.Fail(w, preRes[i].what)
 		}
 	}
 	c.Extra["bash_runs"] = nb
